@@ -26,6 +26,16 @@ def main(argv):
         emit({"t": "init_error", "error": traceback.format_exc()[-3000:]})
         return 3
     case_timeout = getattr(mod, "CASE_TIMEOUT", 120)
+    if isinstance(ctx, dict):
+        notef = open(out + ".note", "w", encoding="utf8", errors="replace")
+
+        def note(text):
+            """What the case is doing right now; the driver reads it when the case never comes back."""
+            notef.seek(0)
+            notef.write(text)
+            notef.truncate()
+            notef.flush()
+        ctx["_note"] = note
     mem_gb = getattr(mod, "MEM_LIMIT_GB", None)
     if mem_gb:
         # a program under test that asks for an absurd amount of memory gets MemoryError (an ordinary error outcome)
@@ -65,6 +75,11 @@ def main(argv):
             endrec["finish_error"] = traceback.format_exc()[-2000:]
     emit(endrec)
     f.close()
+    try:
+        import os
+        os.unlink(out + ".note")
+    except OSError:
+        pass
     return 0
 
 
